@@ -823,3 +823,79 @@ Proof. intros P L. apply Qmult_le_compat_nonneg; split; auto. Qed.
 
 Lemma sq_eq a b : (a == b)%Q -> (a * a == b * b)%Q.
 Proof. intros E. now rewrite E. Qed.
+
+(* ---- the C08 statements about find_cuts, relative to the guarded search space ---- *)
+Definition start_of (i : fc_input) : dstate := search_start (fa_of i) (fi_max_gamma i) (nq_of i).
+
+(* the request i with another random tape *)
+Definition with_tape (i : fc_input) (t : nat -> Q) : fc_input :=
+  mkIn (fi_nq i) (fi_ncl i) (fi_circ i) (fi_gtab i) (fi_W i) (fi_gate_lo i) (fi_wire_lo i) (fi_max_gamma i)
+       (fi_max_backjumps i) t.
+
+Lemma find_cuts_facts fuel i r : gammas_ok_in i -> find_cuts_full fuel i = Val r ->
+  exists ro, opt_facts (fa_of i) (fi_max_gamma i) (mb_of i) (nq_of i) ro (fr_best r) /\
+             md_overhead (fr_meta r) = (cost (fr_best r) * cost (fr_best r))%Q /\
+             md_minimum_reached (fr_meta r) = min_reached (co_engine (or_cutopt ro)).
+Proof.
+  intros G H. destruct (find_cuts_full_unpack _ _ _ H) as (ro&Ho&Hb&Hov&Hfl).
+  exists ro. split; [|split; auto]. eapply optimize_facts; eauto.
+Qed.
+
+Lemma flag_sound_guarded fuel i r : gammas_ok_in i -> find_cuts_full fuel i = Val r ->
+  md_minimum_reached (fr_meta r) = true ->
+  forall g, reach (fa_of i) (start_of i) g -> goal (fa_of i) g ->
+  (md_overhead (fr_meta r) <= cost g * cost g)%Q.
+Proof.
+  intros G H F g R Gg. destruct (find_cuts_facts _ _ _ G H) as (ro&OF&Hov&Hfl).
+  rewrite Hov. apply sq_le; [apply (of_pos _ _ _ _ _ _ OF)|].
+  apply (of_flag _ _ _ _ _ _ OF); auto. congruence.
+Qed.
+
+Lemma unrestricted_sets_flag fuel i r : gammas_ok_in i -> find_cuts_full fuel i = Val r ->
+  fi_max_backjumps i = None ->
+  (exists g, reach (fa_of i) (start_of i) g /\ goal (fa_of i) g /\ (cost g <= fi_max_gamma i)%Q) ->
+  md_minimum_reached (fr_meta r) = true.
+Proof.
+  intros G H MB EX. destruct (find_cuts_facts _ _ _ G H) as (ro&OF&Hov&Hfl).
+  rewrite Hfl. apply (of_unrestricted _ _ _ _ _ _ OF). split; [|exact EX].
+  unfold mb_of. now rewrite MB.
+Qed.
+
+(* the returned state is the greedy incumbent or a goal of the guarded space, and never worse than the incumbent *)
+Lemma result_attained fuel i r : gammas_ok_in i -> find_cuts_full fuel i = Val r ->
+  (greedy_of (fa_of i) (nq_of i) = Some (fr_best r) \/ (reach (fa_of i) (start_of i) (fr_best r) /\ goal (fa_of i) (fr_best r))) /\
+  (forall g, greedy_of (fa_of i) (nq_of i) = Some g -> (md_overhead (fr_meta r) <= cost g * cost g)%Q) /\
+  (md_overhead (fr_meta r) == cost (fr_best r) * cost (fr_best r))%Q.
+Proof.
+  intros G H. destruct (find_cuts_facts _ _ _ G H) as (ro&OF&Hov&Hfl). split; [apply (of_kind _ _ _ _ _ _ OF)|]. split.
+  - intros g Eg. rewrite Hov. apply sq_le; [apply (of_pos _ _ _ _ _ _ OF)|now apply (of_greedy _ _ _ _ _ _ OF)].
+  - rewrite Hov. reflexivity.
+Qed.
+
+Lemma seed_independent fuel1 fuel2 i t1 t2 r1 r2 : gammas_ok_in i ->
+  fi_max_backjumps i = None ->
+  (exists g, reach (fa_of i) (start_of i) g /\ goal (fa_of i) g /\ (cost g <= fi_max_gamma i)%Q) ->
+  find_cuts_full fuel1 (with_tape i t1) = Val r1 -> find_cuts_full fuel2 (with_tape i t2) = Val r2 ->
+  (md_overhead (fr_meta r1) == md_overhead (fr_meta r2))%Q.
+Proof.
+  intros G MB EX H1 H2.
+  destruct (find_cuts_facts fuel1 (with_tape i t1) r1 G H1) as (ro1&OF1&Hov1&Hfl1).
+  destruct (find_cuts_facts fuel2 (with_tape i t2) r2 G H2) as (ro2&OF2&Hov2&Hfl2).
+  change (fa_of (with_tape i t1)) with (fa_of i) in *. change (fa_of (with_tape i t2)) with (fa_of i) in *.
+  change (nq_of (with_tape i t1)) with (nq_of i) in *. change (nq_of (with_tape i t2)) with (nq_of i) in *.
+  change (mb_of (with_tape i t1)) with (mb_of i) in *. change (mb_of (with_tape i t2)) with (mb_of i) in *.
+  change (fi_max_gamma (with_tape i t1)) with (fi_max_gamma i) in *.
+  change (fi_max_gamma (with_tape i t2)) with (fi_max_gamma i) in *.
+  assert (U : unrestricted (fa_of i) (fi_max_gamma i) (mb_of i) (search_start (fa_of i) (fi_max_gamma i) (nq_of i))).
+  { split; [unfold mb_of; now rewrite MB|exact EX]. }
+  pose proof (of_unrestricted _ _ _ _ _ _ OF1 U) as M1. pose proof (of_unrestricted _ _ _ _ _ _ OF2 U) as M2.
+  assert (L12 : (cost (fr_best r1) <= cost (fr_best r2))%Q).
+  { destruct (of_kind _ _ _ _ _ _ OF2) as [Eg|(R&Gg)].
+    - now apply (of_greedy _ _ _ _ _ _ OF1).
+    - now apply (of_flag _ _ _ _ _ _ OF1 M1). }
+  assert (L21 : (cost (fr_best r2) <= cost (fr_best r1))%Q).
+  { destruct (of_kind _ _ _ _ _ _ OF1) as [Eg|(R&Gg)].
+    - now apply (of_greedy _ _ _ _ _ _ OF2).
+    - now apply (of_flag _ _ _ _ _ _ OF2 M2). }
+  rewrite Hov1, Hov2. apply sq_eq. now apply Qle_antisym.
+Qed.
